@@ -409,6 +409,22 @@ def run_shard(spec, ctx, acc):
         for hdr in (b"\xb5\x62\x01\x01\x08\x00", b"\xb5\x62\x05\x01\x02\x00", b"\xb5\x62\x77\x01\x00\x01",
                     b"\xd3\x00\x08", b"\xd3\x00\x00", b"$GNGLL,1,", b"\xb5\x62", b"$G\xb5\x62\xd3\x00\x04"):
             runs.append(hdr * 3000 + bytes(300) + ack + txt)
+        # a small stream of every protocol (accepted and rejected frames) under every interpreter
+        # environment x parsing on / off x every error mode (enumerated, not left to the draw)
+        if spec["part"] == 0:
+            mixed = (ack + txt + rt + bad + codec.nmea_frame("GNTXT,01,01,02,A", good=False) + codec.rtcm_frame(b"\x3e")
+                     + codec.ubx_frame(b"\x13", b"\x40", bytes([0x10, 0]) + bytes(22)) + codec.ubx_frame(b"\x77", b"\x01", b"\x01")
+                     + b"\xb5\x00" + ack + ack[:5])
+            for env in (None,) + tuple(core.ENVS):
+                for parsing in (True, False):
+                    for qe in (0, 1, 2):
+                        for pf in (7, 2):
+                            case = {"kind": "stream", "data": mixed, "has_rejected": True, "pipe": False,
+                                    "opts": {"msgmode": 0, "validate": 1, "protfilter": pf, "parsing": parsing,
+                                             "quitonerror": qe, "parsebitfield": 1, "handler": True}}
+                            o = core.checked(check, case, env=env)
+                            o.classes = list(o.classes) + ["every-environment"]
+                            core.handle(acc, o, case, known)
         for j, data in enumerate(runs):
             if j % 2 != spec["part"] % 2:
                 continue
